@@ -193,3 +193,44 @@ func (s *Sim) ByzMismatchProposal(i int, envs []*Envelope, variant string) {
 		n.B.Block, n.B.Results, n.B.BlockHash = blk, res, nil
 	}
 }
+
+// ByzForgedLockFromOtherPhase builds a "lock certificate" out of a genuine certificate of another phase. For an
+// ELECTION_VOTE certificate (its sign bytes cover only the header and the proposer key) the block, results and both hashes
+// are re-stapled to (blk, res): the aggregate signature still verifies. Certificates of other phases are used as they are
+// (re-stapling would break their signature). Only the phase check of CheckHighQC stands between this and a lock.
+func (s *Sim) ByzForgedLockFromOtherPhase(i int, src *lib.QuorumCertificate, blk []byte, res *lib.CertificateResult) *lib.QuorumCertificate {
+	c := proto.Clone(src).(*lib.QuorumCertificate)
+	if c.Header.Phase == lib.Phase_ELECTION_VOTE {
+		c.Block, c.Results = bytes.Clone(blk), proto.Clone(res).(*lib.CertificateResult)
+		c.BlockHash, c.ResultsHash = s.Nodes[i].B.BlockToHash(blk), res.Hash()
+		s.rememberBlock(c.Block, c.Results, c.BlockHash, c.ResultsHash)
+	} else if c.Block == nil {
+		info := s.BlockOf[s.BlockID(c.BlockHash, c.ResultsHash)-1]
+		c.Block, c.Results = bytes.Clone(info.Block), proto.Clone(info.Results).(*lib.CertificateResult)
+	}
+	return c
+}
+
+// ElectionCertOfCurrentRound returns the ELECTION_VOTE certificate replica i has aggregated for its current round (nil if
+// it holds no +2/3 of election votes): what it would put into its PROPOSE message.
+func (s *Sim) ElectionCertOfCurrentRound(i int) *lib.QuorumCertificate {
+	b := s.Nodes[i].B
+	if b.Phase != bft.Propose {
+		return nil
+	}
+	vote, as, err := b.GetMajorityVote()
+	if err != nil {
+		return nil
+	}
+	return &lib.QuorumCertificate{Header: vote.Qc.Header, ProposerKey: vote.Qc.ProposerKey, Signature: as}
+}
+
+// ElectionCertOfRound returns a travelled ELECTION_VOTE certificate of the given round (from a PROPOSE message).
+func (s *Sim) ElectionCertOfRound(root, round uint64) *lib.QuorumCertificate {
+	for _, c := range s.Certs {
+		if c.Header.Phase == lib.Phase_ELECTION_VOTE && c.Header.RootHeight == root && c.Header.Round == round {
+			return c
+		}
+	}
+	return nil
+}
